@@ -61,11 +61,25 @@ func condsBefore(scope *ast.BlockStmt, target ast.Node) []ast.Expr {
 	return out
 }
 
-// RequireReached: inside scope (which must contain target), whenever req holds at the start
-// of the scope's walk the target is reached.
+// RequireReached: inside scope (which must contain target), no execution of the scope that
+// does not execute target ends (falls off the end, continues, breaks or returns) in a state
+// where req holds: whenever req holds, target was reached. req is evaluated where the skipping
+// path leaves the scope, so it may mention variables the scope defines.
 func (c *Ctx) RequireReached(rule, key string, fn *FuncInfo, scope *ast.BlockStmt, target ast.Node, req string, subst map[string]string) *Obligation {
 	src := substReq(req, subst)
 	desc := src + " ⇒ reached"
+	// the simple statement that executes the target
+	var cut ast.Stmt
+	for _, n := range pathTo(scope, target) {
+		if st, ok := n.(ast.Stmt); ok {
+			cut = st
+		}
+	}
+	switch cut.(type) {
+	case *ast.ExprStmt, *ast.AssignStmt, *ast.IncDecStmt, *ast.SendStmt, *ast.GoStmt, *ast.DeferStmt:
+	default:
+		return c.Undec(rule, key, c.P.Pos(target), fn.Key(), desc, "the target is not executed by a simple statement")
+	}
 	e := NewFactEngine(c.P, fn)
 	f, err := e.ParseReq(src, target.Pos())
 	if err != nil {
@@ -80,16 +94,19 @@ func (c *Ctx) RequireReached(rule, key string, fn *FuncInfo, scope *ast.BlockStm
 	if err != nil {
 		return c.Undec(rule, key, c.P.Pos(target), fn.Key(), desc, err.Error())
 	}
-	w := &walker{e: e, u: u, sc: e.fnScope(), target: target}
-	w.stmts(scope.List, u.valid.clone())
+	exits := newVset(len(u.atoms))
+	frame := &loopFrame{isLoop: true, breaks: newVset(len(u.atoms)), continues: newVset(len(u.atoms))}
+	w := &walker{e: e, u: u, sc: e.fnScope(), cutStmt: cut, exits: &exits, frames: []*loopFrame{frame}}
+	end := w.stmts(scope.List, u.valid.clone())
 	if e.undecided != "" {
 		return c.Undec(rule, key, c.P.Pos(target), fn.Key(), desc, "unsupported control flow: "+e.undecided)
 	}
 	if !w.hit {
 		return c.Undec(rule, key, c.P.Pos(target), fn.Key(), desc, "target not reached by the structured walk")
 	}
+	skip := end.or(frame.continues).or(frame.breaks).or(exits)
 	for v := 0; v < 1<<uint(len(u.atoms)); v++ {
-		if u.valid.has(v) && evalFormula(f, u, v) && !w.at.has(v) {
+		if skip.has(v) && evalFormula(f, u, v) {
 			return c.Bad(rule, key, c.P.Pos(target), fn.Key(), desc, "skipped although the condition holds, with: "+u.describe(v))
 		}
 	}
